@@ -284,7 +284,7 @@ func ruleC15(c *Ctx) {
 	c.rule("C15-R3", "instant: IssueInstant = Format(\"2006-01-02T15:04:05Z\") of sp.Clock.Now().UTC() (the literal Z makes .UTC() mandatory)")
 	c.rule("C15-R4", "child order: the children created on the root form a subsequence of the SAML schema sequence; the returned document's root is the built element, or Sign*(element) exactly under the signing condition")
 	for _, ds := range docSpecs {
-		res := c.kernel(ds.Fn)
+		res := c.kernel(ds.Fn, builderInline...)
 		if res == nil {
 			continue
 		}
@@ -373,6 +373,9 @@ func childTags(m *elemM) string {
 	return strings.Join(s, ", ")
 }
 
+var builderInline = []string{"*", "-(*SAMLServiceProvider).SignAuthnRequest", "-(*SAMLServiceProvider).SignLogoutRequest", "-(*SAMLServiceProvider).SignLogoutResponse",
+	"-uuid.NewV4", "-uuid.(*UUID).String", "-(*SAMLServiceProvider).SigningContext"}
+
 // ---------------------------------------------------------------- C13
 
 func ruleC13(c *Ctx) {
@@ -382,7 +385,7 @@ func ruleC13(c *Ctx) {
 	c.rule("C13-R4", "decision-table agreement, role signing: key that signs vs certificate reported vs signing KeyDescriptor of both metadata functions, over all 12 valid key configurations")
 	var shapes []string
 	for _, fn := range []string{"(*SAMLServiceProvider).SignAuthnRequest", "(*SAMLServiceProvider).SignLogoutRequest", "(*SAMLServiceProvider).SignLogoutResponse"} {
-		res := c.kernel(fn)
+		res := c.kernel(fn, "*", "-(*SAMLServiceProvider).SigningContext")
 		if res == nil {
 			continue
 		}
@@ -581,7 +584,7 @@ func ruleC18(c *Ctx) {
 	c.rule("C18-R4", "String(): constant format of five %x verbs separated by '-' over u[0:4], u[4:6], u[6:8], u[8:10], u[10:16]")
 	n := 0
 	for _, ds := range docSpecs {
-		res := c.kernel(ds.Fn)
+		res := c.kernel(ds.Fn, builderInline...)
 		if res == nil {
 			continue
 		}
@@ -625,7 +628,7 @@ func ruleC18(c *Ctx) {
 	c.floor("C18-R1/id-attributes", 6)
 	// no other producer of ID attributes
 	// R2/R3
-	nv := c.kernel("uuid.NewV4")
+	nv := c.kernel("uuid.NewV4", "*")
 	if nv != nil {
 		fname := shortFn(nv.Root)
 		acc := 0
@@ -731,7 +734,7 @@ func ruleC18(c *Ctx) {
 		}
 	}
 	// R4
-	st := c.kernel("uuid.(*UUID).String")
+	st := c.kernel("uuid.(*UUID).String", "*")
 	if st != nil {
 		fname := shortFn(st.Root)
 		for _, t := range st.Terms {
@@ -840,7 +843,7 @@ func ruleC16(c *Ctx) {
 	c.rule("C16-R2", "the template source is a compile-time constant; parsed at analysis time: only plain field actions whose fields exist in the data struct with type string; every action sits inside a double-quoted attribute value; one form, method POST, action={{.URL}}; hidden SAMLRequest/SAMLResponse input; RelayState input present exactly on the relayState != \"\" path")
 	c.rule("C16-R3", "wiring: .URL <- IdP SSO URL (AuthnRequest) / IdP SLO URL (logout kinds); base64 field <- base64.StdEncoding(doc.WriteToBytes()); .RelayState <- relayState; BuildAuthBodyPost picks the signed document exactly under sp.SignAuthnRequests")
 	for _, ps := range postSpecs {
-		res := c.kernel(ps.Fn)
+		res := c.kernel(ps.Fn, "*")
 		if res == nil {
 			continue
 		}
